@@ -3,7 +3,7 @@
 Model:   Scope.tla AcceptIffOrder (complete graph); MC_Reader OrderLang (ids of the
          records of every token-level file form a path of the hierarchy).
 Dir. A:  Gen_Sections with Extend: EVERY legal path up to the bound extended by EVERY id
-         (9 legal + 8 well-formed illegal ones), every id as first header; rendered with
+         (9 legal + the 15 well-formed illegal ones: 0-3 dots x six names), every id as first header; rendered with
          minimal valid options/content.
 Dir. B:  Trace_Reader (order): accepted id sequence and rejection point = ReadFile.
 """
